@@ -549,10 +549,19 @@ func buildRun(args []string) error {
 	if err := json.NewDecoder(bufio.NewReaderSize(f, 1<<20)).Decode(&gs); err != nil {
 		return err
 	}
-	w := bufio.NewWriterSize(os.Stdout, 1<<20)
+	start := 0
+	if len(args) > 1 {
+		start, _ = strconv.Atoi(args[1])
+	}
+	if ms := os.Getenv("VH_MAXSTACK"); ms != "" {
+		n, _ := strconv.Atoi(ms)
+		debug.SetMaxStack(n)
+	}
+	w := bufio.NewWriter(os.Stdout)
 	defer w.Flush()
-	for gi := range gs {
+	for gi := start; gi < len(gs); gi++ {
 		g := &gs[gi]
+		w.Flush()
 		res := runGuarded(func() string {
 			_, err := build(g, g.Ks[0])
 			if err != nil {
